@@ -275,7 +275,9 @@ def _mask(out: str, names: tuple[str, ...], digits: bool) -> str:
         if n:
             out = out.replace(n, "\x00")
     if digits:
-        out = re.sub(r"\d", "#", out)
+        # str(datetime.now()) varies between the two renders (and drops the fraction when
+        # microsecond == 0): collapse every date/number-looking run
+        out = re.sub(r"\d[\d.:\-+ T]*", "#", out)
     return out
 
 
